@@ -338,9 +338,9 @@ PROPS["C02"]["level_text"] = (
     "REFINEMENT (u23, pure lemmas over the definitions cut out of the units that use them): for every mapping in the domain and every table sequence allowed by u14, built(records, true) and the classes the writer collects "
     "have the same class keys and, under every key, related class fields and the same abstract entries at the same positions, per method name and per (method name, arguments) -- by induction over the record stream with one step lemma per record kind "
     "(the Header step is the obligation that exposed defect D7). Together: mapper == built(records) (u13) ~ collected classes (u14, u23) -> canonical bytes (u8) -> parse reads the same tables back (u20) -> both readers answer through one specification (u1 / u2). "
-    "ASSUMED along this chain: the string-table and Pod round trips of watto, BTreeMap iteration order, and that the class section so produced is sorted by resolved name (what the reader's binary search needs).")
-PROPS["C02"]["not_decided"] = ["of the reader's representation invariant wf_cache, the strict order of the class section and the name order of every class's members are proved for what the writer collects (u23); the (name, parameters) order of each class's by-params records likewise; string interning among a class's members and wf_member for every record are still assumed",
-                               "that watto's string table returns the inserted string for the offset it handed out (offset_of / tbl)"]
+    "The tables read back satisfy the reader's representation invariant wf_cache (u23: strict class order, tiling ranges, member order, by-params order, wf_member, interning), which is the precondition of the reader's functional contracts. "
+    "ASSUMED along this chain: the string-table and Pod round trips of watto and BTreeMap iteration order.")
+PROPS["C02"]["not_decided"] = ["that watto's string table returns the inserted string for the offset it handed out (offset_of / tbl), that BTreeMap iterates in ascending key order, that the Pod casts invert as_bytes: the three dependency / std facts the closed chain rests on"]
 PROPS["C09"]["level_text"] = PROPS["C09"]["level_text"].replace(
     "Sortedness of classes/members and the contents of the string section come from BTreeMap iteration order and watto::StringTable inside the collection loop and are assumed; `test()` accepting every such file is not decided.",
     "The collection loop is verified as a whole (u14). A pure lemma (u20) shows that the reader's layout functions agree with this layout: ProguardCache::parse accepts every canonical file at an 8-aligned address, "
